@@ -13,7 +13,7 @@
 (***************************************************************************)
 EXTENDS Sec1, TLC, FiniteSets
 
-VARIABLES b, rcv, phase
+VARIABLES mB, mRcv, mPhase
 
 FP    == 0..(P - 1)
 Aff   == TLCEval({<<x, y>> \in FP \X FP : (y * y) % P = (x * x * x + B) % P})
@@ -58,24 +58,24 @@ RecoverAlg(xs, id) ==
            ELSE LET d == SetCompressedAlg("none", <<2 + (id % 2)>> \o I2OSP(xfe, W)) IN
                 IF d[1] THEN <<"ok", d[2]>> ELSE <<"err">>
 
-Init == /\ phase = 0 /\ rcv = "junk"
-        /\ b \in {<<>>} \cup {<<x>> : x \in Byte}
-Next == /\ phase = 0 /\ phase' = 1 /\ rcv' = rcv
-        /\ Len(b) = 1
-        /\ \/ b' \in {b \o <<x>> : x \in Byte}
-           \/ b[1] \in UPfx /\ b' \in {b \o <<x, y>> : x \in Byte, y \in Byte}
+Init == /\ mPhase = 0 /\ mRcv = "junk"
+        /\ mB \in {<<>>} \cup {<<x>> : x \in Byte}
+Next == /\ mPhase = 0 /\ mPhase' = 1 /\ mRcv' = mRcv
+        /\ Len(mB) = 1
+        /\ \/ mB' \in {mB \o <<x>> : x \in Byte}
+           \/ mB[1] \in UPfx /\ mB' \in {mB \o <<x, y>> : x \in Byte, y \in Byte}
 
 DecodeInv ==
-  LET d == DecodeB(b)  alg == SetBytesAlg(rcv, b) IN
-  /\ (d[1] = "ok") <=> (b \in EncAll)                         \* accepts exactly the image of the encoders
+  LET d == DecodeB(mB)  alg == SetBytesAlg(mRcv, mB) IN
+  /\ (d[1] = "ok") <=> (mB \in EncAll)                         \* accepts exactly the image of the encoders
   /\ (d[1] = "ok") => /\ d[2] \in Pts
-                      /\ b \in {EncCompressedB(d[2]), EncUncompressedB(d[2])}   \* decode-then-encode (same format)
+                      /\ mB \in {EncCompressedB(d[2]), EncUncompressedB(d[2])}   \* decode-then-encode (same format)
                       /\ alg = <<TRUE, d[2]>>
-  /\ (d[1] = "err") => alg = <<FALSE, rcv>>                           \* receiver untouched on every failure path
-  /\ SetCompressedAlg(rcv, b) = (IF DecodeCompressedB(b)[1] = "ok" THEN <<TRUE, DecodeCompressedB(b)[2]>> ELSE <<FALSE, rcv>>)
-  /\ SetUncompressedAlg(rcv, b) = (IF DecodeUncompressedB(b)[1] = "ok" THEN <<TRUE, DecodeUncompressedB(b)[2]>> ELSE <<FALSE, rcv>>)
+  /\ (d[1] = "err") => alg = <<FALSE, mRcv>>                           \* receiver untouched on every failure path
+  /\ SetCompressedAlg(mRcv, mB) = (IF DecodeCompressedB(mB)[1] = "ok" THEN <<TRUE, DecodeCompressedB(mB)[2]>> ELSE <<FALSE, mRcv>>)
+  /\ SetUncompressedAlg(mRcv, mB) = (IF DecodeUncompressedB(mB)[1] = "ok" THEN <<TRUE, DecodeUncompressedB(mB)[2]>> ELSE <<FALSE, mRcv>>)
 
-BijectionInv == phase = 0 /\ b = <<>> =>
+BijectionInv == mPhase = 0 /\ mB = <<>> =>
   /\ Cardinality(Pts) = N
   /\ Cardinality(EncC) = N /\ Cardinality(EncU) = N                   \* one encoding per point per format
   /\ \A a \in Pts : DecodeB(EncCompressedB(a)) = <<"ok", a>> /\ DecodeB(EncUncompressedB(a)) = <<"ok", a>>
